@@ -104,6 +104,10 @@ def run(ctx, chk):
                         # a constant dispatch table / a routine passed to a unit-internal helper: library functions only,
                         # whose own allocator traffic is judged where they are defined
                         k, which = "library", ",".join(tg)[:60]
+                    else:
+                        from effects import callback_param
+                        if callback_param(prog, f, i):
+                            k, which = "callback", "passed down from the caller's table"
                 chk.ob("C13.indirect", "indirect call in %s" % f.name, k != "unknown", i.loc(), fn=f.name,
                        key="%s:%s:%s" % (f.name, k, which), nontrivial=False,
                        detail="" if k != "unknown" else "callee value is neither an allocator pointer, a callback-table field, nor a "
